@@ -143,9 +143,6 @@ func cmdCheck(args []string) int {
 	}
 	if *workers == 0 {
 		*workers = runtime.NumCPU()
-		if tier == "quick" && *workers > 8 {
-			*workers = 8
-		}
 	}
 	vd, rd := verifDir(), repoDir()
 	start := time.Now()
